@@ -91,7 +91,8 @@ W_New(guid, r) ==
 W_SetRoot(f, v) == sc' = [sc EXCEPT !.root = Append(@, <<f, v>>)] /\ res' = Ok(0) /\ UNCHANGED file
 
 W_Ext(ns, url, nameok, r) ==
-    /\ LET dup == \E i \in 1..Len(sc.exts) : sc.exts[i].ns = ns
+    \* one prefix per URL and one URL per prefix: two prefixes for one URL are the same XML namespace
+    /\ LET dup == \E i \in 1..Len(sc.exts) : sc.exts[i].ns = ns \/ sc.exts[i].url = url
        IN /\ IsOk(r) <=> (nameok /\ ~dup)
           /\ sc' = IF IsOk(r) THEN [sc EXCEPT !.exts = Append(@, [ns |-> ns, url |-> url])] ELSE sc
     /\ res' = r /\ UNCHANGED file
